@@ -218,6 +218,9 @@ def ref_eval(node, env):
         for j in reversed(range(len(elems) - 1)):
             r = sym_ite(i == j, elems[j][0], r)
         return r, unify([sh for _, sh in elems])
+    if k == "ongoing":
+        idx, names = env["fsm:" + node[1]]
+        return b2i(idx == names.index(node[2])), (1, False)
     raise RefError(f"unknown node {k}")
 
 
